@@ -2,7 +2,7 @@
 import numpy as np
 import torch
 
-DT = {"float64": torch.float64, "float32": torch.float32}
+DT = {"float64": torch.float64, "float32": torch.float32, "int64": torch.int64}
 # monotonically increasing maps [0,1] -> [0,1] for GradDrop's `f` (documented parameter): identity (default), two that are NOT
 # odd-symmetric about (0.5, 0.5), one steep symmetric one
 GRADDROP_F = {"identity": None, "square": lambda p: p ** 2, "sqrt": lambda p: p.sqrt(), "steep": lambda p: (4 * (p - 0.5) + 0.5).clamp(0, 1)}
